@@ -26,7 +26,7 @@ PROPS = {
                    "vs. the really emitted body; validity of the output by the real validator per sample.",
         level_note=SIM_NOTE, technique="Coq simulation proof + in-Coq differential execution against the real encoder output", design_ref="5/C16"),
     "C17": dict(COMMON,
-        proof_targets=["Props/C17.vo"], theorems=[("C17", "C17_real_placement_correct"), ("C17", "C17_function_entry_exit_lowering_correct"), ("C17", "C17_exit_before_every_exit_instruction"), ("C17", "C17_emitted_code_simulates_the_probe_semantics"), ("C17", "C17_tree_tie_follows_from_the_correspondence")],
+        proof_targets=["Props/C17.vo"], gen=["GenAddInstr"], theorems=[("C17", "C17_real_placement_correct"), ("C17", "C17_function_entry_exit_lowering_correct"), ("C17", "C17_exit_before_every_exit_instruction"), ("C17", "C17_exit_instruction_list_is_the_model"), ("C17", "C17_emitted_code_simulates_the_probe_semantics"), ("C17", "C17_tree_tie_follows_from_the_correspondence")],
         quick=dict(n=1200), thorough=dict(n=16000),
         rule="as C16 with function entry and/or exit probes (returns and branches to the function label at every nesting depth, unreachable, results) plus some plain before/after probes; non-trivial = every case",
         level_text="Proof (all bodies, plans, configurations, fuel): the plain interpreter on the lowered function - lowered body wrapped in a block of the result type, exit probes spliced before every "
